@@ -508,7 +508,15 @@ fn run_request(s: &mut Session, cx: &Ctx, req: &Req, r: &mut Rng) {
         return;
     }
     if !panicked {
-        cx.oracle_capped(s, "post-part:subset-returns-ok", matches!(&result, Ok(Ok(_))), &input, || format!("{:?}", result.as_ref().ok().and_then(|x| x.as_ref().err())));
+        // judged here only for the tables of this part; a refusal caused by another table (e.g. cmap running out of
+        // serializer room) is the business of that table's module and of the core oracle `subset-returns-ok`
+        const MINE: [&[u8; 4]; 9] = [b"post", b"maxp", b"head", b"hhea", b"hmtx", b"VORG", b"vmtx", b"vhea", b"loca"];
+        let other = matches!(failed_tag, Some(t) if !MINE.iter().any(|m| Tag::new(m) == t));
+        if other {
+            s.count(&format!("subset-font-error:other-table:{}", failed_tag.unwrap()));
+        } else {
+            cx.oracle_capped(s, "post-part:subset-returns-ok", matches!(&result, Ok(Ok(_))), &input, || format!("{:?}", result.as_ref().ok().and_then(|x| x.as_ref().err())));
+        }
     }
     if let Ok(Err(e)) = &result {
         if failed_tag.is_none() {
@@ -831,7 +839,16 @@ fn run_request(s: &mut Session, cx: &Ctx, req: &Req, r: &mut Rng) {
                                 bad = Some(format!("(new {new}, old {old}): original {a:?} subset {b:?}"));
                             }
                         }
-                        cx.oracle_capped(s, vm_name, bad.is_none(), &input, || bad.clone().unwrap_or_default());
+                        if renumbered && bad.is_some() && s.dist.get("vmtx:renumbered-mismatch(known finding)").copied().unwrap_or(0) >= 12 {
+                            // the known finding repeats for every renumbering request: record a dozen, count the rest
+                            s.oracle_checks += 1;
+                            s.count("vmtx:renumbered-mismatch(known finding)");
+                        } else {
+                            if renumbered && bad.is_some() {
+                                s.count("vmtx:renumbered-mismatch(known finding)");
+                            }
+                            cx.oracle_capped(s, vm_name, bad.is_none(), &input, || bad.clone().unwrap_or_default());
+                        }
                     }
                 }
             }
@@ -1036,7 +1053,7 @@ pub fn run(cfg: &Config, s: &mut Session, r: &mut Rng) {
     pstring_unit(s, r, if th { 4000 } else { 300 });
 
     // (A) synthetic glyf fonts with hand-built post tables (+ exact maxp, sometimes VORG / vhea / vmtx)
-    let nfonts = if th { 900u64 } else { 70 };
+    let nfonts = if th { 3000u64 } else { 160 };
     for id in 0..nfonts {
         let n = match id % 10 {
             0 => 259 + r.below(60) as usize, // more glyphs than standard names
